@@ -43,6 +43,31 @@ def _base():
     return db
 
 
+PARSED_DOC = (
+    "Enum es.status {\n  on\n  off [note: 'x']\n}\n"
+    "Enum status {\n  other\n}\n"                      # the same enum name in another schema, declared later
+    "Table users as U [note: 'tn'] {\n  id int [pk, increment]\n  st es.status [not null]\n"
+    "  name varchar(20) [unique, default: 'anon', note: 'cn']\n"
+    "  indexes {\n    name [unique, name: 'ix1']\n    (id, `lower(name)`) [type: hash]\n  }\n}\n"
+    "Table shop.orders {\n  id int [pk]\n  uid int [ref: > U.id]\n  uname varchar(20)\n}\n"
+    "Ref fk_name: shop.orders.uname - users.name [delete: cascade]\n"
+    "Ref: shop.orders.id <> users.id\n"
+    "TableGroup g {\n  users\n  shop.orders\n}\n"
+)
+
+
+def _base_parsed():
+    """the same shapes obtained from the parser (plus a second enum of the same name in another schema)"""
+    from harness import docs
+    from crosshair.tracers import NoTracing, is_tracing
+    # the document is concrete: it is parsed by the real parser with CrossHair's tracer paused (no symbolic value is involved);
+    # every path gets a database of its own
+    if is_tracing():
+        with NoTracing():
+            return docs.parse(PARSED_DOC)
+    return docs.parse(PARSED_DOC)
+
+
 def _apply(db, op, nm, step):
     from pydbml.classes import Column, Index, Note, EnumItem
     t1, t2 = db.tables[0], db.tables[1]
@@ -121,6 +146,7 @@ def _apply(db, op, nm, step):
     elif op == 'assign_note_text':
         t1.note.text = 'first\n  \n\t\nlast ' + nm
         t1.columns[2].note.text = 'col\n \nnote'
+        t2.columns[0].note.text = 'key ' + nm          # a column that was created without a note
     elif op == 'retype_ref_column':
         t1.columns[0].type = 'bigint'
         t2.schema = 'store'
@@ -159,13 +185,13 @@ def _known_skip(db):
     return False
 
 
-def edits(D, first=-1, K=1, thorough_elements=False, second=None):
+def edits(D, first=-1, K=1, thorough_elements=False, second=None, source='api'):
     """second: optional list of edit codes the second edit is drawn from (thorough tier, D=3: keeps the history count affordable)"""
     n = len(EDITS)
     args = [(f'o{i}', IntRange(0, (len(second) if (second and i == 1) else n) - 1)) for i in range(D) if not (i == 0 and first >= 0)] + hole_args('n', K, NAME)
 
     def run(a):
-        db = _base()
+        db = _base() if source == 'api' else _base_parsed()
         db.sql                          # a first rendering before any edit
         nm = text_of(a, 'n', K)
         seq = []
@@ -195,6 +221,11 @@ def edits(D, first=-1, K=1, thorough_elements=False, second=None):
         for r, (kind, inl) in zip(db.refs, db._vp_intent):
             if r.type != kind or bool(r.inline) != (inl and kind != '<>'):
                 return 'a reference does not show the kind / inline-ness it was last given'
+        for c in (db.tables[0].columns[1], db.tables[1].columns[1], db.tables[1].columns[2]):
+            if c.note is not None and c.note.text:
+                return 'a column that no edit gave a note to shows a note'
+        if db.tables[0].columns[1].type is not db.enums[0]:
+            return 'the enum-typed column does not hold the Enum object of the database'
         if [ix.name or ix.type for ix in db.tables[0].indexes] != db._vp_idx:
             return 'the index list of a table is not what the add / delete edits intended (wrong index removed, or order changed)'
         try:
@@ -225,7 +256,7 @@ def edits(D, first=-1, K=1, thorough_elements=False, second=None):
         return {'edits': seq, 'name_fragment': ''.join(chr(a[f'n{i}']) for i in range(K)), 'dbml_edited': db.dbml, 'dbml_fresh': fresh.dbml,
                 'sql_equal': db.sql == fresh.sql}
 
-    return Harness(body, args, describe=describe, bounds={'D': D, 'edits': EDITS, 'K': K, 'second_edit_from': [EDITS[c] for c in second] if second else 'all'})
+    return Harness(body, args, describe=describe, bounds={'D': D, 'edits': EDITS, 'K': K, 'base database': source, 'second_edit_from': [EDITS[c] for c in second] if second else 'all'})
 
 
 def instances(tier):
@@ -234,6 +265,9 @@ def instances(tier):
     if quick:
         for f in range(len(EDITS)):
             out.append({'name': f'edits/D2/first_{EDITS[f]}', 'factory': 'edits', 'params': {'D': 2, 'first': f, 'K': 1}, 'timeout': 280, 'native_limit': 120})
+        for e in ('rename_enum', 'assign_note_text', 'rename_table', 'add_enum_item'):      # the same on a database that came from the parser
+            out.append({'name': f'edits/parsed/D2/first_{e}', 'factory': 'edits', 'params': {'D': 2, 'first': EDITS.index(e), 'K': 1, 'source': 'parsed'},
+                        'timeout': 280, 'native_limit': 120})
         return out
     # thorough: every history of two edits with the element renderings compared as well, and histories of three edits whose
     # middle edit is one of four that leave state behind for the third (rename, inline / kind change, index list edit).
@@ -242,6 +276,9 @@ def instances(tier):
     for f in range(len(EDITS)):
         out.append({'name': f'edits/D2/elements/first_{EDITS[f]}', 'factory': 'edits', 'params': {'D': 2, 'first': f, 'K': 1, 'thorough_elements': True},
                     'timeout': 1500, 'native_limit': 120})
+    for f in range(len(EDITS)):
+        out.append({'name': f'edits/parsed/D2/elements/first_{EDITS[f]}', 'factory': 'edits',
+                    'params': {'D': 2, 'first': f, 'K': 1, 'thorough_elements': True, 'source': 'parsed'}, 'timeout': 1500, 'native_limit': 120})
     for f in range(len(EDITS)):
         out.append({'name': f'edits/D3/first_{EDITS[f]}', 'factory': 'edits', 'params': {'D': 3, 'first': f, 'K': 1, 'thorough_elements': True, 'second': core},
                     'timeout': 4000, 'native_limit': 200})
